@@ -712,7 +712,7 @@ def _flag_names(table):
 def _absent_summary(absent):
     out = {}
     for k, n in absent.items():
-        what = k.split(":", 1)[1]
+        what = k.rsplit(":", 1)[1]
         if "enumerator" in what:
             what = "is_/set_/clear_/new_ of a zero-valued enumerator (not generated)"
         e = out.setdefault(what, {"types": 0, "calls_skipped": 0})
